@@ -319,6 +319,16 @@ def _rename(rng, d):
         d["names"] = {f"{r},{c}": f"{d['name']}@{r}.{c}" for r, c in filled}
     elif mode == "partial":
         d["names"] = {f"{r},{c}": f"named {r}.{c}" for r, c in filled if rng.random() < 0.5} or None
+        if d["names"] is not None and rng.random() < 0.3:
+            # a user-given name that happens to read like the default name of another, unnamed well
+            # ("plate.B01" for A01): the two wells then legitimately share one component
+            unnamed = [(r, c) for r, c in filled if f"{r},{c}" not in d["names"]]
+            if unnamed:
+                r2, c2 = rng.choice(unnamed)
+                k = rng.choice(sorted(d["names"]))
+                d["names"][k] = (f"{d['name']}.column_{c2 + 1:02d}" if d["kind"] == "trough"
+                                 else f"{d['name']}.{'ABCDEFGHIJKLMNOPQRSTUVWXYZ'[r2]}{c2 + 1:02d}")
+                d["name_like_default_of"] = f"{r2},{c2}"
         if d["names"] is not None and rng.random() < 0.5:
             # an explicit None means "not named": the default applies
             for r, c in filled:
